@@ -82,6 +82,10 @@ class _DatasetFillerContext:
             raise ValueError("The `relative_path_from_split` may not contain "
                              "'..' which could allow accidental directory "
                              "traversal.")
+        if relative_path_from_split.is_absolute():
+            raise ValueError("The `relative_path_from_split` must be a "
+                             "relative path (an absolute one would leave the "
+                             "dataset directory).")
 
         self._dataset_root_path: Path = dataset_root_path
         self._dataset_structure: DatasetStructure = dataset_structure
